@@ -1718,6 +1718,8 @@ def extra(ctx):
     for full, k, rmac, now in flip_sources(ctx):
         key = mk_key(k)
         v0 = rfc_verdict(full, k[0], k[1], k[2], rmac, now)
+        if v0[:2] == ("malformed", "edns"):
+            continue   # hand-built body with a deliberately malformed OPT: not a genuine message
         try:
             with clock(now):
                 m0 = dns.message.from_wire(full, keyring=key, request_mac=rmac)
